@@ -45,9 +45,28 @@ Print Assumptions C26_rejects_bad_refs.
    real handler's status and on what the real handler hands to ingestion:
    200 + exactly the described series, or 4xx + nothing ingested. *)
 Theorem C26_request_pred : forall symbols ss,
-  pred_ok (CV2 symbols ss false (fst (handle_v2 symbols ss)) (snd (handle_v2 symbols ss))) = true.
+  req_pred_ok (CV2 symbols ss false (fst (handle_v2 symbols ss)) (snd (handle_v2 symbols ss))) = true.
 Proof. exact handle_v2_pred. Qed.
 Print Assumptions C26_request_pred.
+
+(* Histories. Source fact: the v2 path (handleV2HTTP, translateV2ToV1, v2Labels,
+   translateV2SpansToV1) reads no Handler field and no package-level variable —
+   no pool or cache survives from one request to the next. *)
+Theorem C26_v2_path_stateless : v2_path_stateless = true.
+Proof. exact v2_path_is_stateless. Qed.
+Print Assumptions C26_v2_path_stateless.
+
+(* The outcome of the n-th request of any history is a function of that request
+   only, and every request of every history satisfies the predicate on its own. *)
+Theorem C26_outcome_depends_on_the_request_only : forall pre r post,
+  nth (List.length pre) (handle_history (pre ++ r :: post)) (0, []) = handle_v2 (fst r) (snd r).
+Proof. exact history_is_pointwise. Qed.
+Print Assumptions C26_outcome_depends_on_the_request_only.
+
+Theorem C26_history_pred : forall reqs,
+  pred_ok (CHist (map (fun r => CV2 (fst r) (snd r) false (fst (handle_v2 (fst r) (snd r))) (snd (handle_v2 (fst r) (snd r)))) reqs)) = true.
+Proof. exact history_pred. Qed.
+Print Assumptions C26_history_pred.
 
 (* Before the repair the lookup was an unchecked slice index: undefined (a Go
    panic) on this request, which the repaired translation rejects. *)
